@@ -57,9 +57,9 @@ class FloatOfInt:
     def __repr__(self) -> str:
         return f"<float of int {self.n!r}>"
 
-    def to_int(self) -> Any:
+    def to_int(self, force_model: bool = False) -> Any:
         n = self.n
-        if not isinstance(n, SymInt):
+        if not isinstance(n, SymInt) and not force_model:
             return builtins.int(builtins.float(n))
         if -(2**53) <= n <= 2**53:
             return n
@@ -68,6 +68,8 @@ class FloatOfInt:
                 return n
             # a tie between the two neighbouring doubles: round half to even mantissa, i.e. to the multiple of 4
             return n + 1 if (n + 1) % 4 == 0 else n - 1
+        if not isinstance(n, SymInt):
+            return None
         from vt import sym as _sym
 
         FloatOfInt._n += 1
